@@ -48,6 +48,10 @@ type evSpec struct {
 	SvcT  string `json:"svc_t"`
 	SvcV  string `json:"svc_v"`
 	Conn  int    `json:"conn"`
+	// TokT/TokV: the event already holds a "token" key when it is put on the bus (a relayed event, a captured
+	// credential stored under that name): "" = no such key
+	TokT string `json:"tok_t,omitempty"`
+	TokV string `json:"tok_v,omitempty"`
 }
 
 type scenario struct {
@@ -106,6 +110,9 @@ func mkScenario(seed int64, idx int) scenario {
 		e.SvcT, e.SvcV = field()
 		if sc.Concurrent {
 			e.Conn = i % 2
+		}
+		if r.Chance(1, 8) {
+			e.TokT, e.TokV = r.PickS([]string{"string", "string", "int", "nil"}), r.PickS([]string{"attacker-supplied", "", "7"})
 		}
 		sc.Events = append(sc.Events, e)
 	}
@@ -272,6 +279,9 @@ func runOnce(sc scenario, variant string) (scnObs, error) {
 				}
 				if e.SvcT != "missing" {
 					sp.Fields["service"] = lab.EmitTV{T: e.SvcT, V: e.SvcV}
+				}
+				if e.TokT != "" {
+					sp.Fields["token"] = lab.EmitTV{T: e.TokT, V: e.TokV}
 				}
 				jb, _ := json.Marshal(sp)
 				cc.SetDeadline(time.Now().Add(5 * time.Second))
